@@ -496,6 +496,9 @@ Fixpoint update_controller_revision (fuel : nat) (clone : rev) (n : Z) (last : e
       end
   end.
 
+(* the creation timestamp the API server gives an object it creates: later than that of every object of the initial world *)
+Definition created_now : Z := 1000000.
+
 (* createControllerRevision: the collision loop (fuel = number of hashes the case provides) *)
 Fixpoint create_controller_revision (fuel : nat) (s : sset) (r : rev) (coll : Z) : M (rev * Z) :=
   match fuel with
@@ -529,7 +532,7 @@ Definition get_set_revisions (s : sset) (revs : list rev) : M (rev * rev * Z) :=
   | None => out_of_fuel
   | Some h0 =>
     let fresh := {| r_name := rev_name s h0; r_revision := next; r_tmpl := s_tmpl s; r_owner := Some (me s);
-                    r_match := true; r_marker := None; r_hash := Some h0; r_created := 0; r_labels_nil := false |} in
+                    r_match := true; r_marker := None; r_hash := Some h0; r_created := created_now; r_labels_nil := false |} in
     let equal := filter (fun r => equal_revision r fresh) revs in
     x <- (match last_opt equal, last_opt revs with
           | Some e, Some l =>
